@@ -270,6 +270,9 @@ def run_add_value_store(ctx, node_is_call, is_source, is_stale):
     N0, E0 = g.N, g.E
 
     class Store:
+        def __len__(self):      # a value store is a user object: it may well be falsy (the library must test 'is None', never truth)
+            return 0
+
         def read(self):
             raise AssertionError("stores must not be touched by the transformation")
 
